@@ -59,18 +59,19 @@ class WorkerExit(BaseException):
     """run() of a sub-suite raising something that is not an Exception (raises = 'base')."""
 
 
-def tid_of(w, i):
-    return "w%d_t%d" % (w, i)
+def tid_of(w, i, pfx="w"):
+    return "%s%d_t%d" % (pfx, w, i)
 
 
 class SubSuite:
     """A scripted sub-suite (distinct, hashable)."""
 
-    def __init__(self, ex, w, tests, raises):
+    def __init__(self, ex, w, tests, raises, pfx="w"):
         self.ex = ex
         self.w = w
         self.tests = tests
         self.raises = raises
+        self.pfx = pfx  # "x": a sub-suite of an EARLIER run() on the same suite object
 
     def __repr__(self):
         return "<sub-suite %d>" % self.w
@@ -84,18 +85,18 @@ class SubSuite:
         self.ex.sch.note(ran=self.w)
         for i, t in enumerate(self.tests, 1):
             if t == "raw":
-                result.status(test_id=tid_of(self.w, i), test_status="success", route_code="sub")
+                result.status(test_id=tid_of(self.w, i, self.pfx), test_status="success", route_code="sub")
             elif t == "rawn":
                 # every keyword spelled out, the timestamp explicitly None (e.g. a relayed recorded stream)
-                result.status(test_id=tid_of(self.w, i), test_status="success", test_tags=None, runnable=True,
+                result.status(test_id=tid_of(self.w, i, self.pfx), test_status="success", test_tags=None, runnable=True,
                               file_name=None, file_bytes=None, eof=False, mime_type=None, route_code=None,
                               timestamp=None)
             elif t == "rawt":
-                result.status(test_id=tid_of(self.w, i), test_status="success", timestamp=RAW_TIME)
+                result.status(test_id=tid_of(self.w, i, self.pfx), test_status="success", timestamp=RAW_TIME)
             elif t == "timed":
                 # explicit times, the worker's own tag, and a pause between startTest and the outcome so that tests
                 # of different workers overlap
-                test = PlaceHolder(tid_of(self.w, i))
+                test = PlaceHolder(tid_of(self.w, i, self.pfx))
                 d = 100 * self.w + 10 * i
                 result.time(T0 + datetime.timedelta(seconds=d + 1))
                 result.startTest(test)
@@ -106,7 +107,7 @@ class SubSuite:
                 result.stopTest(test)
             else:
                 out = OUTCOME.get(t, t)
-                PlaceHolder(tid_of(self.w, i), outcome=out).run(result)
+                PlaceHolder(tid_of(self.w, i, self.pfx), outcome=out).run(result)
         if self.raises == "exc":
             raise ScriptedRunError("run() of sub-suite %d raises" % self.w)
         if self.raises == "base":
@@ -210,10 +211,11 @@ class CallerStream:
     """The caller's StreamResult (ConcurrentStreamTestSuite); called by the main thread only; raises at its
     cfault-th status() call."""
 
-    def __init__(self, ex):
+    def __init__(self, ex, cfault=None):
         self.ex = ex
         self.n = 0
         self.log = []
+        self.cfault = ex.cfault if cfault is None else cfault
 
     def startTestRun(self):
         pass
@@ -225,7 +227,7 @@ class CallerStream:
                eof=False, mime_type=None, route_code=None, timestamp=None):
         n = self.n
         self.n += 1
-        if n == self.ex.cfault:
+        if n == self.cfault:
             self.ex.sch.note(abort="cfault")
             raise CallerFault("caller's result raises at event %d" % n)
         # the message being dispatched was put by ... (only used for ids that do not name their worker: the
@@ -238,7 +240,13 @@ class CallerStream:
 
 
 class Execution:
-    def __init__(self, variant, script, makeFault=NOFAULT, intrAt=NOFAULT, cfault=NOFAULT, chooser=None):
+    def __init__(self, variant, script, makeFault=NOFAULT, intrAt=NOFAULT, cfault=NOFAULT, chooser=None, prerun=None):
+        # prerun = {"script": [...], "cfault": n}: the SAME suite object first makes a run with those sub-suites that
+        # the caller's result aborts at its n-th event; when that run's workers have finished, the run described by
+        # the other arguments is made on it and recorded (a run starts from scratch: fresh queue, empty worker table)
+        self.prerun = prerun
+        self.phase = 1 if prerun else 2
+        self.pre_threads = 0
         self.variant = variant
         self.script = script
         self.makeFault = makeFault
@@ -275,6 +283,10 @@ class Execution:
 
     # -- scripted collaborators ---------------------------------------------------------------
     def _make_tests(self, *a):
+        if self.phase == 1:
+            for w, sc in enumerate(self.prerun["script"], 1):
+                yield (SubSuite(self, w, sc["tests"], sc["raises"], pfx="x"), "p%d" % w)
+            return
         for k, sub in enumerate(self.subs):
             if k == self.makeFault:
                 self.sch.note(abort="make")
@@ -293,6 +305,21 @@ class Execution:
             suite = testsuite.ConcurrentTestSuite(unittest.TestSuite(), self._make_tests)
         else:
             suite = testsuite.ConcurrentStreamTestSuite(self._make_tests)
+        if self.prerun:
+            try:
+                suite.run(CallerStream(self, cfault=self.prerun["cfault"]))
+            except S.SchedAbort:
+                raise
+            except BaseException:  # noqa - the aborted first run (cfault scenarios are validated on their own)
+                pass
+            # the first run's workers finish (they still enqueue events), then the recorded run starts
+            self.sch.yield_point("settle", enabled=lambda: all(
+                t.state == "done" for t in self.sch.threads if isinstance(t.id, int) and t.id >= 100))
+            self.pre_threads = len(self.sch.created)
+            self.phase = 2
+            self.events = []
+            self.told = set()
+            self.putter_stale = set(self.putter)
         try:
             suite.run(self.result)
         except S.SchedAbort:
@@ -312,7 +339,7 @@ class Execution:
         self.sch.note(main="returned")
 
     def _on_thread(self, th):
-        w = th.index + 1
+        w = th.index + 1 - self.pre_threads if self.phase == 2 else 100 + th.index + 1
         th.tid = w
         pr = None
         for a in th._args:
@@ -372,10 +399,10 @@ class Execution:
         return {"kind": "other", "w": putter, "id": 0, "st": "none", "sub": False, "code": "none"}
 
     def alive(self):
-        return sorted(t.id for t in self.sch.threads if t.id != 0 and t.state != "done")
+        return sorted(t.id for t in self.sch.threads if 0 < t.id < 100 and t.state != "done")
 
     def started(self):
-        return sorted(t.id for t in self.sch.threads if t.id != 0)
+        return sorted(t.id for t in self.sch.threads if 0 < t.id < 100)
 
     def _on_step(self, rec):
         sch = self.sch
@@ -390,7 +417,7 @@ class Execution:
             abort = rec["abort"]
         ev = {
             "thr": rec["thr"],
-            "act": op,
+            "act": "begin" if op == "settle" else op,  # (second run on one suite object: it begins after the settle)
             "alive": self.alive(),
             "started": self.started(),
             "told": sorted(self.told),
@@ -405,7 +432,7 @@ class Execution:
             h = sems[0].holder() if sems else None
             ev["holder"] = FREE if h is None else h
             ev["e"] = rec.get("entry", NOENTRY) if op == "call" else NOENTRY
-            ev["queue"] = [self.project_msg(x, None) for x in qs[0].items] if qs else []
+            ev["queue"] = [self.project_msg(x, None) for x in qs[-1].items] if qs else []
         else:
             m = NOMSG
             if op == "put" and "item" in rec:
@@ -416,7 +443,7 @@ class Execution:
             ev["m"] = m
             ev["fwd"] = "fwd" in rec
             ev["e"] = rec.get("fwd", NOCE)
-            ev["qlen"] = len(qs[0].items) if qs else 0
+            ev["qlen"] = len(qs[-1].items) if qs else 0
         self.events.append(ev)
 
     # -- running --------------------------------------------------------------------------------
@@ -448,8 +475,8 @@ class Execution:
         return d
 
 
-def run_scenario(variant, script, mf, ia, cf, chooser):
-    ex = Execution(variant, script, mf, ia, cf, chooser)
+def run_scenario(variant, script, mf, ia, cf, chooser, prerun=None):
+    ex = Execution(variant, script, mf, ia, cf, chooser, prerun=prerun)
     with ex.patched():
         ex.start()
         try:
@@ -570,6 +597,12 @@ def systematic_scenarios(tier):
     sc.append(("stream", sha, N, 2, N, 1))
     sc.append(("stream", shn, N, N, 1, 1))
     sc.append(("stream", [Sc(["rawn"], route=None), Sc(["rawt", "rawn"], route=None)], N, N, N, 1))
+    # two consecutive runs on ONE suite object: the first aborted by the caller's result raising at event c (its
+    # workers still have events to enqueue), the second with a healthy caller - whose log must hold exactly its own
+    # workers' events (a run starts from scratch)
+    pre = [Sc(["ok", "ok"]), Sc(["ok"])]
+    for c in ((1, 3) if tier == "quick" else (0, 1, 2, 3)):
+        sc.append(("stream", [Sc(["ok"]), Sc(["raw"])], N, N, N, 1, {"script": pre, "cfault": c}))
     sc.append(("stream", [Sc([], True, route="a"), Sc([], True, route="a")], N, N, N, 1))
     # three workers sharing one code
     sc.append(("stream", [Sc([], route=None), Sc([], route=None), Sc([], route=None)], N, N, N, 1))
@@ -634,7 +667,10 @@ def random_scenario(rng):
         ia = rng.randint(0, 2 * n + 2)
     elif r < 0.6 and variant == "stream":
         cf = rng.randint(0, 6)
-    return variant, script, mf, ia, cf
+    if variant == "stream" and rng.random() < 0.15:
+        pre = [Sc([rng.choice(("ok", "er")) for _ in range(rng.randint(1, 3))]) for _ in range(rng.randint(1, 2))]
+        return variant, script, mf, ia, cf, {"script": pre, "cfault": rng.randint(0, 4)}
+    return variant, script, mf, ia, cf, None
 
 
 def abstract(tr):
@@ -689,6 +725,9 @@ def run(tier, pid="C13"):
     rep.assume("'reported as broken-runner' is required for run() raising an Exception; for a BaseException (what the "
                "code does not catch) only the completion message / termination is required")
     rep.assume("raw stream events with their own route code are only emitted by workers whose route code is not None")
+    rep.assume("two consecutive run() calls on one ConcurrentStreamTestSuite object: the first is aborted by its caller's "
+               "result and its workers run to completion before the second starts; the second run is validated as a run "
+               "from scratch (fresh queue, empty worker table) - its caller must see exactly its own workers' events")
     rep.assume("route codes handed out by make_tests need not be distinct (scenarios give two / three workers the same "
                "string or None); events are attributed to workers by test id, the ErrorHolder's 'broken-runner-<route>' "
                "id by the worker whose own queue message carries it")
@@ -749,16 +788,19 @@ def run(tier, pid="C13"):
 
     sys_counts = []
     cap = 350 if quick else 1000
-    for variant, script, mf, ia, cf, bound in systematic_scenarios(tier):
-        exr = S.Explorer(bound, max_executions=cap if (len(script) < 3 or not quick) else cap // 2)
+    for scen in systematic_scenarios(tier):
+        variant, script, mf, ia, cf, bound = scen[:6]
+        prerun = scen[6] if len(scen) > 6 else None
+        exr = S.Explorer(bound, max_executions=cap if ((len(script) < 3 and not prerun) or not quick) else cap // 2)
         while exr.more():
-            trace, dl, ex = run_scenario(variant, script, mf, ia, cf, exr)
+            trace, dl, ex = run_scenario(variant, script, mf, ia, cf, exr, prerun=prerun)
             record(trace, dl, ex, "systematic")
             exr.done_one()
             if len(rep.violations) >= 3:
                 break
         sys_counts.append({"variant": variant, "script": abstract({"variant": variant, "script": script, "ev": []})["script"],
                            "makeFault": mf, "intrAt": ia, "cfault": cf, "bound": bound,
+                           "second_run_after_aborted_first": bool(prerun),
                            "executions": exr.executions, "complete": not exr.truncated})
         if len(rep.violations) >= 3:
             break
@@ -767,9 +809,9 @@ def run(tier, pid="C13"):
     for j in range(nrand):
         if len(rep.violations) >= 3:
             break
-        variant, script, mf, ia, cf = random_scenario(rng)
+        variant, script, mf, ia, cf, prerun = random_scenario(rng)
         trace, dl, ex = run_scenario(variant, script, mf, ia, cf,
-                                     S.RandomWalk(rng.getrandbits(32), stay=rng.choice((0.0, 0.5, 0.8))))
+                                     S.RandomWalk(rng.getrandbits(32), stay=rng.choice((0.0, 0.5, 0.8))), prerun=prerun)
         record(trace, dl, ex, "random")
     rep.extra["systematic"] = sys_counts
     rep.extra["random_executions"] = nrand
